@@ -7,10 +7,12 @@ STD_ASSUME_PURE = [
 
 PROPS = {
     "C02": {
-        "shrink_iters": 3, "shrink_cands": 6,
         "lean_modules": ["RdestModel.Props.C02"],
         "cases": {"quick": 14, "thorough": 700},
-        "rule": "every case is one end-to-end run of the real Session::run in a child process (scratch directory, loopback tracker, fixed port 6881 "
+        "rule": "cases = end-to-end runs (the count in `cases`) plus 25 manager histories per run: the C12 event histories on the real Session "
+                "(connect, bitfield, have, choke/unchoke, interest, PieceDone, PieceCancel, kill; end game and normal mode), compared step by step "
+                "with the manager model that T2/T3 are proved on, with T3 (the number of pieces not owned never increases) evaluated on the "
+                "implementation's own snapshots; every end-to-end case is one run of the real Session::run in a child process (scratch directory, loopback tracker, fixed port 6881 "
                 "behind a lock file): piece length in {5,16,100,16384,20000,40000}, 1..4 files with lengths in {0, pl, <pl, random} (total up to 12 "
                 "pieces), content a function of the seed; 1..3 honest peers among which every piece is spread (each piece at one random peer plus "
                 "1/3 chance at each other), 0..2 extra peers with random pieces that disconnect after 0..2 blocks or in the middle of a Piece message; "
